@@ -17,8 +17,21 @@ def sh(cmd, cwd=None, env=None, timeout=3600):
     return p.returncode, p.stdout
 
 
-def build_demo(tree, demo, out):
+def build_demo(tree, demo, out, fi=False):
     srcs = "$(ls src/ksi/*.c | grep -v -e cryptoapi -e winhttp -e wininet -e commoncrypto)"
+    if fi:
+        # demonstration brings its own allocator (my_malloc/my_calloc/my_free) behind base.c
+        flags = '-g -O1 -fsanitize=address -DHAVE_CONFIG_H -Isrc -Isrc/ksi -w'
+        srcs = "$(ls src/ksi/*.c | grep -v -e cryptoapi -e winhttp -e wininet -e commoncrypto -e src/ksi/base.c)"
+        rc, o = sh('gcc %s -Dmalloc=my_malloc -Dcalloc=my_calloc -Dfree=my_free -c src/ksi/base.c -o %s.base.o' % (flags, out), cwd=tree)
+        if rc != 0:
+            return rc, o
+        r = sh('gcc %s %s %s.base.o %s -lcrypto -lcurl -o %s' % (flags, srcs, out, demo, out), cwd=tree)
+        try:
+            os.unlink(out + '.base.o')
+        except OSError:
+            pass
+        return r
     return sh('gcc -g -O1 -fsanitize=address -DHAVE_CONFIG_H -Isrc -Isrc/ksi -w %s %s -lcrypto -lcurl -o %s' % (srcs, demo, out), cwd=tree)
 
 
@@ -40,7 +53,7 @@ def audit(name, tier='quick'):
         demo = os.path.join(d, 'demo.c')
         env = dict(os.environ, ASAN_OPTIONS='detect_leaks=0')
         if os.path.exists(demo):
-            rc, out = build_demo(scratch, demo, '/var/tmp/vf_seed_%s_demo0' % name)
+            rc, out = build_demo(scratch, demo, '/var/tmp/vf_seed_%s_demo0' % name, meta.get('demo_alloc_seam', False))
             r0, o0 = sh('/var/tmp/vf_seed_%s_demo0' % name, cwd=scratch, env=env, timeout=300) if rc == 0 else (999, out)
             res['demo_unchanged_rc'] = r0
         rc, out = sh('git apply %s' % os.path.join(d, 'patch.diff'), cwd=scratch)
@@ -50,7 +63,7 @@ def audit(name, tier='quick'):
         rc, out = sh('CC=gcc CFLAGS="-I%s/src/" bash ./test/include-test.sh ./test' % scratch, cwd=scratch)
         res['baseline_passes'] = (rc == 0 and 'OK (' in out)
         if os.path.exists(demo):
-            rc, out = build_demo(scratch, demo, '/var/tmp/vf_seed_%s_demo1' % name)
+            rc, out = build_demo(scratch, demo, '/var/tmp/vf_seed_%s_demo1' % name, meta.get('demo_alloc_seam', False))
             res['compiles'] = rc == 0
             r1, o1 = sh('/var/tmp/vf_seed_%s_demo1' % name, cwd=scratch, env=env, timeout=300) if rc == 0 else (999, out)
             res['demo_changed_rc'] = r1
